@@ -37,7 +37,7 @@ def generate_cases(run, tier, big=True):
         # (a depth-2 BFS - 7 000 types, 49 000 trace lines - was still in trace validation after 35 minutes: nestings deeper
         # than 1 come from the simulation below)
         bfs = [(1, False, ['E', 'I', 'A']), (1, True, ['E'], True), (1, True, ['I', 'A'])]
-        sim = ('num=250', 6, ['E', 'I', 'A'])      # per TLC worker (4 workers): about one behaviour per second and worker
+        sim = ('num=60', 6, ['E', 'I', 'A'])       # per TLC worker (4 workers); 4 x 250 behaviours gave 320 MB of cases
     cases = []
     big_ok = big
     for n, b in enumerate(bfs):
